@@ -18,6 +18,7 @@
 long verif_gk, verif_gk2, verif_w, verif_w2; int verif_flag;
 unsigned char in_buf[VERIF_N + 16] __attribute__ ((aligned (8)));
 unsigned char orig[VERIF_N + 16];
+unsigned char expect[VERIF_N + 16];
 int in_len;
 unsigned char nondet_uchar (void); int nondet_int (void);
 static const char the_sig[] = VERIF_SIG;
@@ -32,10 +33,16 @@ void harness (void)
   sig.str = (unsigned char *) the_sig; sig.len = sizeof (the_sig) - 1; sig.allocated = sizeof (the_sig) + 8; sig.constant = 1; sig.locked = 1; sig.valid = 1; sig.align_offset = 0;
   before = _dbus_validate_body_with_reason ((DBusString *) &sig, 0, A, NULL, (DBusString *) &body, 0, in_len);
   __CPROVER_assume (before == DBUS_VALID);
+  /* expected image in the other byte order, computed by the reference decoder from the original bytes */
+  for (i = 0; i < VERIF_N; i++) expect[i] = orig[i];
+  body_ref_out = expect;
+  __CPROVER_assert (body_ref_valid (the_sig, orig, in_len, VERIF_LE), "a body the validator accepts is well-formed per the reference decoder");
+  body_ref_out = 0;
   _dbus_marshal_byteswap ((DBusString *) &sig, 0, A, B, (DBusString *) &body, 0);
   after = _dbus_validate_body_with_reason ((DBusString *) &sig, 0, B, NULL, (DBusString *) &body, 0, in_len);
   __CPROVER_assert (after == DBUS_VALID, "a valid body is still valid after conversion to the other byte order");
   __CPROVER_assert (body_ref_valid (the_sig, in_buf, in_len, !VERIF_LE), "the converted body is well-formed per the reference decoder");
+  for (i = 0; i < VERIF_N; i++) __CPROVER_assert (i >= in_len || in_buf[i] == expect[i], "every number keeps its value in the new byte order (field-wise byte reversal), every other byte is unchanged");
   _dbus_marshal_byteswap ((DBusString *) &sig, 0, B, A, (DBusString *) &body, 0);
   for (i = 0; i < VERIF_N; i++) __CPROVER_assert (in_buf[i] == orig[i], "converting back restores every byte");
   __CPROVER_assert (0, "REACH:valid-body-swapped");
